@@ -387,6 +387,9 @@ func (repo *GoGitRepo) FetchRefs(remote string, prefixes ...string) (string, err
 		RemoteName: remote,
 		RefSpecs:   refSpecs,
 		Progress:   buf,
+		// only what was asked for: by default go-git also creates local tags for the remote's tags
+		// pointing to objects already present (refs/tags/* of the host project are not ours to create)
+		Tags: gogit.NoTags,
 	})
 	if err == gogit.NoErrAlreadyUpToDate {
 		return "already up-to-date", nil
